@@ -235,10 +235,16 @@ class Gen:
             return self.fn("mod", self.ch.draw(2))
         return self.fn("truth")
 
-    def keyfn(self, allow_none=True, unorderable=False):
+    def keyfn(self, allow_none=True, unorderable=False, single_pass=False):
         if unorderable and self.cfg.odd_items and self.ch.chance(1, 10):
+            if not single_pass:
+                # (what sorting makes of keys without a consistent order depends on the sorting algorithm: only keys that
+                # make the comparison *fail* are used there)
+                return self.fn(("divnone", "ident")[self.ch.draw(2)], self.ch.draw(2))
             # keys the stdlib cannot order among each other: one shared None for some items, a number for the others
-            return self.fn("divnone", self.ch.draw(2))
+            # ... or NaN for some of them (neither smaller nor greater than anything); or the items themselves, which
+            # know ``<`` and ``==`` only
+            return self.fn(("divnone", "nankey", "ident")[self.ch.draw(3)], self.ch.draw(2))
         k = self.ch.draw(5 if allow_none else 4)
         if allow_none:
             if k == 0:
@@ -1069,7 +1075,7 @@ class _MinMax(AggBase):
 
     def gen(self, g):
         items = _odd_items(g, g.items())
-        key = g.keyfn(unorderable=True)
+        key = g.keyfn(unorderable=True, single_pass=True)
         default = g.optional()
         return Spec(self.which, [g.src(items)], [key], {"default": default})
 
